@@ -267,6 +267,13 @@ namespace OpenMEEG {
             nested = false;
             outer_domain = 0;
             num_params = 0;
+
+            //  Containers derived by finalize(): they refer to the meshes and vertices that were just destroyed.
+
+            invalid_vertices_.clear();
+            nb_current_barrier_triangles_ = 0;
+            independant_parts.clear();
+            meshpairs.clear();
         }
 
         void read_geometry_file(const std::string& filename);
